@@ -322,4 +322,11 @@ theorem wsim_init : WSim (init .poll) (init .epoll) :=
   ⟨rfl, rfl, sim_init.ps, sim_init.es, sim_init.ds, sim_init.dt, sim_init.abs.ev, sim_init.abs.rev,
     sim_init.abs.added, rfl, rfl, rfl, rfl, rfl, rfl, List.Perm.refl _⟩
 
+
+/-- operations between polls only; the kernel lists the ready descriptors in another order than
+`PollPoller` scans them -/
+def sampleUnordered : List In :=
+  [.op 2 .enableR, .op 3 .enableW, .op 4 .enableR, .iter [(4, 1), (2, 1), (3, 4)] 3, .op 3 .disableAll,
+   .op 3 .remove, .iter [(4, 16), (2, 1)] 2]
+
 end MuduoVerif.Poller
